@@ -192,7 +192,7 @@ def run(ctx):
                 fam = Family(ctx, im, vs)
                 pairs = [(a, b) for a in range(len(vs)) for b in range(len(vs)) if a != b]
             elif kind == "decimal":
-                a = rnd.choice(["0.1", "0.25", "1.5", "3.4", "0.000000001", "33.3", "0.00000000025", "0.0000000000000000000125"])
+                a = rnd.choice(["0.1", "0.25", "1.5", "3.4", "0.000000001", "33.3", "0.00000000025", "0.0000000000000000000125", "10.25", "996.4"])
                 b = rnd.choice(["0.2", "0.7", "2.5", "5", "1", "66.7"])
                 c3 = rnd.choice(["0.7", "0.6", "3", "1000000000"])
                 from decimal import Decimal
@@ -206,11 +206,29 @@ def run(ctx):
                 fam, pairs = Family(ctx, im, [v1, v1, v2], labels_variants=True), [(0, 1), (1, 0), (0, 2)]
             if not fam.ok:
                 continue
-            for u in units_for(ctx, nunits):
-                fam.check_unit(u, probe, pairs)
+            from pyabv.impl import host_settings
+
+            with host_settings("decimal" if i % 4 == 3 else None):
+                for u in units_for(ctx, nunits):
+                    fam.check_unit(u, probe, pairs)
             ctx.count("families/" + kind)
             if i < 2:
                 ctx.sample(dict(kind=kind, vectors=fam.vectors[:4]))
+        # ramps whose running totals need four and more digits, evaluated while the host's decimal context is cut to three
+        # digits (money-handling applications do that): the ramp is as monotone as under any other context
+        from pyabv.impl import host_settings
+
+        for hi, (v1, v2) in enumerate([(["10", "986", "2"], ["11", "992", "2"]), (["123", "4567", "89"], ["124", "4570", "89"]),
+                                       (["1000", "1", "1000"], ["1001", "2", "1000"]), (["0.1234", "0.4321", "1.0001"], ["0.1244", "0.4322", "1.0001"])]):
+            if not ctx.mine(hi):
+                continue
+            fam = Family(ctx, im, [v1, v2])
+            if not fam.ok:
+                continue
+            with host_settings("decimal"):
+                for u in units_for(ctx, nunits * 3):
+                    fam.check_unit(u, probe, [(0, 1)])
+            ctx.count("families/host-decimal-context")
         # (iii) multi-branch: same weight shape in every branch, condition field flipped
         nb = ctx.n(20, 3000)
         for i in range(nb):
@@ -262,8 +280,9 @@ def redeploy_layer(ctx, im):
         groups = ", ".join(f'"g{i}" weighted {w}' for i, w in enumerate(vec))
         return f'def r {{ salt: "ramp" splitters: {", ".join(fields)} return {groups} }}'
 
-    pairs = [(["10", "90"], ["20", "80"]), (["1", "1", "2"], ["2", "1", "1"]), (["5", "0", "95"], ["5", "10", "85"])]
-    units = [dict(uid=1000 + i, sid=f"s{i % 7}", zone=["eu", "us"][i % 2], app=i % 3, Uid=f"U{i}") for i in range(300 if ctx.quick() else 1500)]
+    pairs = [(["10", "90"], ["20", "80"]), (["1", "1", "2"], ["2", "1", "1"]), (["5", "0", "95"], ["5", "10", "85"]),
+             (["10", "986", "2", "1000"], ["11", "992", "2", "1000"])]
+    units = [dict(uid=1000 + i, sid=f"s{i % 7}", zone=["eu", "us", None][i % 3], app=i % 3, Uid=f"U{i}") for i in range(300 if ctx.quick() else 1500)]
     progs = [t for pr in pairs for t in (text(pr[0]), text(pr[1]))]
     tmp = tempfile.mkdtemp(prefix="pyabv-c10-")
     try:
